@@ -30,6 +30,7 @@ import (
 	"testing"
 	"time"
 
+	"github.com/q191201771/lal/pkg/base"
 	"github.com/q191201771/lal/pkg/logic"
 	"pgregory.net/rapid"
 
@@ -228,7 +229,7 @@ func TestConfineRead(t *testing.T) {
 
 type WriteCase struct {
 	Name  string `json:"name"`  // the stream name the client publishes
-	Proto string `json:"proto"` // rtmp | rtsp
+	Proto string `json:"proto"` // rtmp | rtsp | rtp-pub (GB28181 start_rtp_pub) | customize (AddCustomizePubSession)
 	Hls   bool   `json:"hls"`
 	Flv   bool   `json:"flv"`
 	Ts    bool   `json:"ts"`
@@ -240,9 +241,20 @@ var writeSpecial = []string{"..", "../hls", "../flv", "../ts", "../../x", "a/../
 
 func genWrite(t *rapid.T) WriteCase {
 	c := WriteCase{Proto: "rtmp", Gops: rapid.IntRange(2, 4).Draw(t, "gops")}
-	if rapid.IntRange(0, 5).Draw(t, "rtsp") == 0 {
+	ingest := rapid.IntRange(0, 9).Draw(t, "ingest")
+	if ingest == 0 || ingest == 1 {
 		c.Proto = "rtsp"
 		c.Name = rapid.SampledFrom([]string{"..", "..", "%2e%2e", ".", "x", "%2e%2e%2fx"}).Draw(t, "rtspName")
+		ingest = -1
+	}
+	// the stream name of the HTTP API (GB28181 start_rtp_pub) and of the customize pub API is any string, like RTMP's
+	switch ingest {
+	case 2, 3:
+		c.Proto = "rtp-pub"
+	case 4:
+		c.Proto = "customize"
+	}
+	if ingest < 0 {
 	} else if rapid.IntRange(0, 2).Draw(t, "special") == 0 {
 		c.Name = rapid.SampledFrom(writeSpecial).Draw(t, "name")
 	} else {
@@ -349,6 +361,53 @@ func runWrite(c WriteCase) *pbt.Violation {
 		}
 		_ = conn.Close()
 		conn.WaitPeerDone(lalclient.IdleTimeout)
+	case "rtp-pub":
+		// GB28181: the stream name of /api/ctrl/start_rtp_pub; lal opens the outputs when the session is created
+		var resp base.ApiCtrlStartRtpPubResp
+		s.Call("CtrlStartRtpPub", func() {
+			resp = s.SM.CtrlStartRtpPub(base.ApiCtrlStartRtpPubReq{StreamName: c.Name, Port: 0, TimeoutMs: 60000, IsTcpFlag: c.Gops % 2})
+		})
+		if resp.ErrorCode != base.ErrorCodeSucc {
+			pbt.Count("c14_write_publish_refused", 1)
+			break
+		}
+		var kr base.ApiCtrlKickSessionResp
+		s.Call("CtrlKickSession", func() {
+			kr = s.SM.CtrlKickSession(base.ApiCtrlKickSessionReq{StreamName: c.Name, SessionId: resp.Data.SessionId})
+		})
+		deadline := time.Now().Add(lalclient.IdleTimeout)
+		for kr.ErrorCode == base.ErrorCodeSucc && pubID(s, c.Name) != "" && time.Now().Before(deadline) {
+			time.Sleep(2 * time.Millisecond)
+		}
+	case "customize":
+		var ctx logic.ICustomizePubSessionContext
+		var cerr error
+		s.Call("AddCustomizePubSession", func() { ctx, cerr = s.SM.AddCustomizePubSession(c.Name) })
+		if cerr != nil || ctx == nil {
+			pbt.Count("c14_write_publish_refused", 1)
+			break
+		}
+		feed := func(items []gen.Item) {
+			for _, it := range items {
+				pl := it.Payload(codecs)
+				csid := 4
+				if it.TypeID() == gen.TypeVideo {
+					csid = 6
+				}
+				s.Call("FeedRtmpMsg", func() {
+					_ = ctx.FeedRtmpMsg(base.RtmpMsg{Header: base.RtmpHeader{Csid: csid, MsgLen: uint32(len(pl)), MsgTypeId: it.TypeID(), MsgStreamId: 1, TimestampAbs: it.Ts}, Payload: pl})
+				})
+			}
+		}
+		feed(headerItems())
+		for i := 0; i < c.Gops; i++ {
+			ts := uint32(i) * 1100
+			if i > 0 {
+				feed([]gen.Item{{Kind: "audio", Ts: ts - 15, ALen: 24, ASeed: uint32(i)*8 + 7}})
+			}
+			feed(gopItems(ts, uint32(i)+1))
+		}
+		s.Call("DelCustomizePubSession", func() { s.SM.DelCustomizePubSession(ctx) })
 	default:
 		panic(pbt.HarnessError{Msg: "bad proto " + c.Proto})
 	}
